@@ -8,6 +8,7 @@
 
 """Utility functions for images."""
 
+import os
 import sys
 from enum import Enum
 from functools import lru_cache
@@ -147,7 +148,16 @@ def fit_into_array(
     return output
 
 
-@lru_cache(maxsize=128)  # One must add parameter 'maxsize' for Python 3.7
+def _get_file_stamp(filename: str | Path) -> tuple[int, int] | None:
+    """Get a stamp (modification time, size) identifying the current content of a local file."""
+    try:
+        stat_result = os.stat(filename)
+    except (OSError, TypeError, ValueError):
+        return None
+
+    return stat_result.st_mtime_ns, stat_result.st_size
+
+
 def load_cropped_and_aligned_image(
     shape: tuple[int, ...],
     filename: str | Path,
@@ -159,6 +169,55 @@ def load_cropped_and_aligned_image(
     allow_smaller_array: bool = True,
 ) -> np.ndarray:
     """Load image from file and fit to detector shape.
+
+    The result is cached as long as the file is not modified.
+
+    Parameters
+    ----------
+    shape: tuple
+        Detector shape.
+    filename: str
+        Path to image file.
+    position_x: tuple
+        Index of starting column, used when fitting image to detector.
+    position_y: tuple
+        Index of starting row, used when fitting image to detector.
+    align: Literal
+        Keyword to align the image to detector. Can be any from:
+        ("center", "top_left", "top_right", "bottom_left", "bottom_right")
+
+    Returns
+    -------
+    cropped_and_aligned_image: ndarray
+    """
+    file_stamp: tuple[int, int] | None = _get_file_stamp(filename)
+
+    if file_stamp is None:
+        # The content of this file cannot be tracked (e.g. remote file), do not cache it
+        return _load_cropped_and_aligned_image.__wrapped__(
+            shape, filename, position_x, position_y, align, allow_smaller_array
+        )
+
+    return _load_cropped_and_aligned_image(
+        shape, filename, position_x, position_y, align, allow_smaller_array, file_stamp
+    )
+
+
+@lru_cache(maxsize=128)  # One must add parameter 'maxsize' for Python 3.7
+def _load_cropped_and_aligned_image(
+    shape: tuple[int, ...],
+    filename: str | Path,
+    position_x: int = 0,
+    position_y: int = 0,
+    align: (
+        Literal["center", "top_left", "top_right", "bottom_left", "bottom_right"] | None
+    ) = None,
+    allow_smaller_array: bool = True,
+    file_stamp: tuple[int, int] | None = None,
+) -> np.ndarray:
+    """Load image from file and fit to detector shape.
+
+    Parameter ``file_stamp`` is only used to invalidate the cache when the file changes.
 
     Parameters
     ----------
